@@ -224,7 +224,7 @@ Proof.
     destruct (count_gate pol n (elem_size t')) as [a|]; [|apply gate_fail_no_panic].
     apply cloop_no_panic. exact IH.
   - rewrite cdec_map. destruct (cnum_spec 4 bs) as [He|[n [r [He Hl]]]]; rewrite He; [cbn; discriminate|].
-    match goal with |- context [if ?c then _ else _] => destruct c end; [cbn; discriminate|].
+    destruct (match pol with PRefl => 2 ^ 31 <=? n | _ => false end); [cbn; discriminate|].
     destruct (count_gate pol n (elem_size tk + elem_size tv + 8)) as [a|]; [|apply gate_fail_no_panic].
     apply cloop_no_panic. intros b bud. unfold cpair.
     pose proof (IHk b bud) as Hk. destruct (cdec pol false tk b bud) as [r1 c1].
@@ -234,3 +234,215 @@ Proof.
   - rewrite cdec_tuple. apply cgo_no_panic. exact IH.
   - rewrite cdec_struct. apply cgo_no_panic. apply Forall_map. exact IH.
 Qed.
+
+(* ---------- list helpers for the member loops ---------- *)
+
+Lemma Forall_forallb_mp {A} (f : A -> bool) (P : A -> Prop) l :
+  forallb f l = true -> Forall (fun x => f x = true -> P x) l -> Forall P l.
+Proof.
+  intros Hb HF. induction HF as [|x l Hx HF IH]; [constructor|].
+  cbn [forallb] in Hb. apply andb_true_iff in Hb as [Hb1 Hb2].
+  constructor; [apply Hx; exact Hb1|apply IH; exact Hb2].
+Qed.
+
+Lemma fold_right_map_snd {A B C} (g : B -> C) (h : C -> C -> C) (z : C) (fs : list (A * B)) :
+  fold_right (fun t a => h (g t) a) z (map snd fs) = fold_right (fun f a => h (g (snd f)) a) z fs.
+Proof. induction fs as [|f l IH]; [reflexivity|]. cbn [map fold_right]. now rewrite IH. Qed.
+
+Lemma gate_fail_cases pol neg n : gate_fail pol neg n = CErr \/ gate_fail pol neg n = CPanic.
+Proof.
+  unfold gate_fail. destruct pol; try (left; reflexivity).
+  destruct ((2 ^ 31 <=? n) && neg); [right|left]; reflexivity.
+Qed.
+
+(* ---------- 3. iterations, containers without zero-width elements ---------- *)
+
+(* iterations are paid for by consumed bytes; a success consumes at least mw bytes *)
+Definition lin (mw : N) (bs : bytes) (rc : cres unit * cost) : Prop :=
+  match fst rc with
+  | COk _ rest => iters (snd rc) + mw + len rest <= len bs
+  | _ => iters (snd rc) <= len bs
+  end.
+
+Lemma lin_weaken mw mw' bs rc : mw' <= mw -> lin mw bs rc -> lin mw' bs rc.
+Proof. unfold lin. intros Hle H. destruct (fst rc) as [u rest| | |]; lia. Qed.
+
+Lemma cloop_lin (p : bytes -> N -> cres unit * cost) :
+  (forall b bud, lin 1 b (p b bud)) ->
+  forall fuel n bs budget acc,
+    match fst (cloop p fuel n bs budget acc) with
+    | COk _ rest => iters (snd (cloop p fuel n bs budget acc)) + len rest <= iters acc + len bs
+    | _ => iters (snd (cloop p fuel n bs budget acc)) <= iters acc + len bs + 1
+    end.
+Proof.
+  intros Hp fuel. induction fuel as [|f IH]; intros n bs budget acc; cbn [cloop].
+  - destruct (n =? 0); [cbn; lia|]. destruct (budget =? 0); cbn; lia.
+  - destruct (n =? 0); [cbn; lia|]. destruct (budget =? 0); [cbn; lia|].
+    pose proof (Hp bs (budget - 1)) as Hp1. unfold lin in Hp1.
+    destruct (p bs (budget - 1)) as [r c]. cbn [fst snd] in Hp1.
+    destruct r as [u rest| | |]; cbn [fst snd cadd iters]; try lia.
+    match goal with |- context [cloop p f ?n' rest ?b' ?a'] => specialize (IH n' rest b' a') end.
+    destruct (fst (cloop p f (n - 1) rest (budget - 1 - iters c)
+                     (cadd acc (cadd c {| alloc := 0; iters := 1 |})))) as [u' rest'| | |];
+      cbn [cadd iters] in IH; lia.
+Qed.
+
+Lemma cpair_lin pol neg tk tv mk mv :
+  (forall b bud, lin mk b (cdec pol neg tk b bud)) ->
+  (forall b bud, lin mv b (cdec pol neg tv b bud)) ->
+  forall b bud, lin (mk + mv) b (cpair pol neg tk tv b bud).
+Proof.
+  intros Hk Hv b bud. unfold cpair.
+  pose proof (Hk b bud) as Hk1. unfold lin in Hk1. destruct (cdec pol neg tk b bud) as [r1 c1].
+  cbn [fst snd] in Hk1. destruct r1 as [u b'| | |]; try exact Hk1.
+  pose proof (Hv b' (bud - iters c1)) as Hv1. unfold lin in Hv1.
+  destruct (cdec pol neg tv b' (bud - iters c1)) as [r2 c2]. cbn [fst snd] in Hv1.
+  unfold lin. cbn [fst snd cadd iters]. destruct r2 as [u' rest| | |]; lia.
+Qed.
+
+Definition mws (ts : list ty) : nat := fold_right (fun t a => (min_width t + a)%nat) 0%nat ts.
+
+Lemma cgo_lin pol neg ts :
+  Forall (fun t => forall bs budget, lin (N.of_nat (min_width t)) bs (cdec pol neg t bs budget)) ts ->
+  forall b bud acc,
+    match fst (cgo pol neg ts b bud acc) with
+    | COk _ rest => iters (snd (cgo pol neg ts b bud acc)) + N.of_nat (mws ts) + len rest <= iters acc + len b
+    | _ => iters (snd (cgo pol neg ts b bud acc)) <= iters acc + len b
+    end.
+Proof.
+  intro HF. induction HF as [|t' l Ht HF IH]; intros b bud acc; cbn [cgo mws fold_right].
+  - cbn [fst snd]. lia.
+  - pose proof (Ht b bud) as Ht1. unfold lin in Ht1. destruct (cdec pol neg t' b bud) as [r c].
+    cbn [fst snd] in Ht1. destruct r as [u b'| | |]; cbn [fst snd cadd iters]; try lia.
+    specialize (IH b' (bud - iters c) (cadd acc c)). fold (mws l).
+    destruct (fst (cgo pol neg l b' (bud - iters c) (cadd acc c))) as [u' rest| | |];
+      cbn [cadd iters] in IH; lia.
+Qed.
+
+Lemma cdec_lin pol neg t :
+  wfz t = true -> forall bs budget, lin (N.of_nat (min_width t)) bs (cdec pol neg t bs budget).
+Proof.
+  induction t as [s|t' IH|tk tv IHk IHv|ts IH|name fs IH] using ty_ind2; intros Hwf bs budget.
+  - pose proof (cdec_scalar pol neg s bs budget) as [Hi H]. unfold lin. rewrite Hi.
+    destruct (fst (cdec pol neg (TS s) bs budget)) as [u rest| | |]; lia.
+  - cbn [wfz] in Hwf. apply andb_true_iff in Hwf as [Hmw Hwf]. apply Nat.leb_le in Hmw.
+    rewrite cdec_list. unfold lin.
+    destruct (cnum_spec 4 bs) as [He|[n [r [He Hl]]]]; rewrite He; [cbn; lia|].
+    destruct (count_gate pol n (elem_size t')) as [a|].
+    + assert (Hp : forall b bud, lin 1 b (cdec pol neg t' b bud))
+        by (intros b bud; eapply lin_weaken; [|apply IH; exact Hwf]; lia).
+      pose proof (cloop_lin (cdec pol neg t') Hp (cfuel r n) n r budget {| alloc := a; iters := 0 |}) as Hloop.
+      destruct (fst (cloop (cdec pol neg t') (cfuel r n) n r budget {| alloc := a; iters := 0 |}))
+        as [u rest| | |]; cbn [iters min_width] in *; lia.
+    + destruct (gate_fail_cases pol neg n) as [Hg|Hg]; rewrite Hg; cbn; lia.
+  - cbn [wfz] in Hwf. apply andb_true_iff in Hwf as [Hwf Hwfv]. apply andb_true_iff in Hwf as [Hmw Hwfk].
+    apply Nat.leb_le in Hmw. rewrite cdec_map. unfold lin.
+    destruct (cnum_spec 4 bs) as [He|[n [r [He Hl]]]]; rewrite He; [cbn; lia|].
+    destruct (match pol with PRefl => 2 ^ 31 <=? n | _ => false end); [cbn [fst snd czero iters min_width]; lia|].
+    destruct (count_gate pol n (elem_size tk + elem_size tv + 8)) as [a|].
+    + assert (Hp : forall b bud, lin 1 b (cpair pol neg tk tv b bud))
+        by (intros b bud; eapply lin_weaken; [|apply (cpair_lin pol neg tk tv _ _ (IHk Hwfk) (IHv Hwfv))]; lia).
+      pose proof (cloop_lin (cpair pol neg tk tv) Hp (cfuel r n) n r budget {| alloc := a; iters := 0 |}) as Hloop.
+      destruct (fst (cloop (cpair pol neg tk tv) (cfuel r n) n r budget {| alloc := a; iters := 0 |}))
+        as [u rest| | |]; cbn [iters min_width] in *; lia.
+    + destruct (gate_fail_cases pol neg n) as [Hg|Hg]; rewrite Hg; cbn; lia.
+  - cbn [wfz] in Hwf. rewrite cdec_tuple. unfold lin.
+    pose proof (cgo_lin pol neg ts (Forall_forallb_mp _ _ _ Hwf IH) bs budget czero) as Hgo.
+    cbn [min_width]. fold (mws ts).
+    destruct (fst (cgo pol neg ts bs budget czero)) as [u rest| | |]; cbn [czero iters] in Hgo; lia.
+  - cbn [wfz] in Hwf. rewrite cdec_struct. unfold lin.
+    assert (HF : Forall (fun t => forall bs budget, lin (N.of_nat (min_width t)) bs (cdec pol neg t bs budget))
+                   (map snd fs)).
+    { apply Forall_map. exact (Forall_forallb_mp (fun f => wfz (snd f)) _ _ Hwf IH). }
+    pose proof (cgo_lin pol neg (map snd fs) HF bs budget czero) as Hgo.
+    cbn [min_width]. unfold mws in Hgo.
+    rewrite (fold_right_map_snd min_width Nat.add 0%nat fs) in Hgo.
+    destruct (fst (cgo pol neg (map snd fs) bs budget czero)) as [u rest| | |]; cbn [czero iters] in Hgo; lia.
+Qed.
+
+Theorem cdec_iters_wfz : forall pol neg t bs budget, wfz t = true ->
+  iters (snd (cdec pol neg t bs budget)) <= len bs.
+Proof.
+  intros pol neg t bs budget Hwf. pose proof (cdec_lin pol neg t Hwf bs budget) as H. unfold lin in H.
+  destruct (fst (cdec pol neg t bs budget)) as [u rest| | |]; lia.
+Qed.
+
+(* the budget is never the reason to stop *)
+Lemma cloop_no_budget (p : bytes -> N -> cres unit * cost) :
+  (forall b bud, lin 1 b (p b bud)) ->
+  (forall b bud, len b <= bud -> fst (p b bud) <> CBudget) ->
+  forall fuel n bs budget acc,
+    len bs < budget -> (List.length bs < fuel)%nat -> fst (cloop p fuel n bs budget acc) <> CBudget.
+Proof.
+  intros Hp Hb fuel. induction fuel as [|f IH]; intros n bs budget acc Hbud Hfuel; [lia|].
+  cbn [cloop]. destruct (n =? 0); [cbn; discriminate|].
+  destruct (budget =? 0) eqn:Hz; [lia|].
+  pose proof (Hp bs (budget - 1)) as Hp1. unfold lin in Hp1.
+  pose proof (Hb bs (budget - 1) ltac:(lia)) as Hb1.
+  destruct (p bs (budget - 1)) as [r c]. cbn [fst snd] in Hp1, Hb1.
+  destruct r as [u rest| | |]; cbn [fst]; try discriminate; [|congruence].
+  apply IH; unfold len in *; lia.
+Qed.
+
+Lemma cpair_no_budget pol neg tk tv mk :
+  (forall b bud, lin mk b (cdec pol neg tk b bud)) ->
+  (forall b bud, len b <= bud -> fst (cdec pol neg tk b bud) <> CBudget) ->
+  (forall b bud, len b <= bud -> fst (cdec pol neg tv b bud) <> CBudget) ->
+  forall b bud, len b <= bud -> fst (cpair pol neg tk tv b bud) <> CBudget.
+Proof.
+  intros Hk Hbk Hbv b bud Hle. unfold cpair.
+  pose proof (Hk b bud) as Hk1. unfold lin in Hk1. pose proof (Hbk b bud Hle) as Hbk1.
+  destruct (cdec pol neg tk b bud) as [r1 c1]. cbn [fst snd] in Hk1, Hbk1.
+  destruct r1 as [u b'| | |]; cbn [fst]; try discriminate; [|congruence].
+  pose proof (Hbv b' (bud - iters c1) ltac:(lia)) as Hbv1.
+  destruct (cdec pol neg tv b' (bud - iters c1)) as [r2 c2]. exact Hbv1.
+Qed.
+
+Lemma cgo_no_budget pol neg ts :
+  Forall (fun t => (forall bs budget, lin (N.of_nat (min_width t)) bs (cdec pol neg t bs budget)) /\
+                   (forall bs budget, len bs <= budget -> fst (cdec pol neg t bs budget) <> CBudget)) ts ->
+  forall b bud acc, len b <= bud -> fst (cgo pol neg ts b bud acc) <> CBudget.
+Proof.
+  intro HF. induction HF as [|t' l [Hl Hb] HF IH]; intros b bud acc Hle; cbn [cgo]; [cbn; discriminate|].
+  pose proof (Hl b bud) as Hl1. unfold lin in Hl1. pose proof (Hb b bud Hle) as Hb1.
+  destruct (cdec pol neg t' b bud) as [r c]. cbn [fst snd] in Hl1, Hb1.
+  destruct r as [u b'| | |]; cbn [fst]; try discriminate; [|congruence].
+  apply IH. lia.
+Qed.
+
+Lemma cfuel_enough r n : (List.length r < cfuel r n)%nat.
+Proof. unfold cfuel. lia. Qed.
+
+Lemma cdec_no_budget pol neg t :
+  wfz t = true -> forall bs budget, len bs <= budget -> fst (cdec pol neg t bs budget) <> CBudget.
+Proof.
+  induction t as [s|t' IH|tk tv IHk IHv|ts IH|name fs IH] using ty_ind2; intros Hwf bs budget Hle.
+  - pose proof (cdec_scalar pol neg s bs budget) as [_ H]. intro E. rewrite E in H. exact H.
+  - cbn [wfz] in Hwf. apply andb_true_iff in Hwf as [Hmw Hwf]. apply Nat.leb_le in Hmw.
+    rewrite cdec_list.
+    destruct (cnum_spec 4 bs) as [He|[n [r [He Hl]]]]; rewrite He; [cbn; discriminate|].
+    destruct (count_gate pol n (elem_size t')) as [a|].
+    + apply cloop_no_budget; [| |lia|apply cfuel_enough].
+      * intros b bud. eapply lin_weaken; [|apply cdec_lin; exact Hwf]. lia.
+      * apply IH. exact Hwf.
+    + destruct (gate_fail_cases pol neg n) as [Hg|Hg]; rewrite Hg; cbn; discriminate.
+  - cbn [wfz] in Hwf. apply andb_true_iff in Hwf as [Hwf Hwfv]. apply andb_true_iff in Hwf as [Hmw Hwfk].
+    apply Nat.leb_le in Hmw. rewrite cdec_map.
+    destruct (cnum_spec 4 bs) as [He|[n [r [He Hl]]]]; rewrite He; [cbn; discriminate|].
+    destruct (match pol with PRefl => 2 ^ 31 <=? n | _ => false end); [cbn; discriminate|].
+    destruct (count_gate pol n (elem_size tk + elem_size tv + 8)) as [a|].
+    + apply cloop_no_budget; [| |lia|apply cfuel_enough].
+      * intros b bud. eapply lin_weaken; [|apply (cpair_lin pol neg tk tv _ _ (cdec_lin pol neg tk Hwfk) (cdec_lin pol neg tv Hwfv))]. lia.
+      * apply (cpair_no_budget pol neg tk tv _ (cdec_lin pol neg tk Hwfk) (IHk Hwfk) (IHv Hwfv)).
+    + destruct (gate_fail_cases pol neg n) as [Hg|Hg]; rewrite Hg; cbn; discriminate.
+  - cbn [wfz] in Hwf. rewrite cdec_tuple. apply cgo_no_budget; [|exact Hle].
+    apply (Forall_forallb_mp wfz _ _ Hwf). eapply Forall_impl; [|exact IH].
+    intros t Ht Hwft. split; [apply cdec_lin; exact Hwft|apply Ht; exact Hwft].
+  - cbn [wfz] in Hwf. rewrite cdec_struct. apply cgo_no_budget; [|exact Hle].
+    apply Forall_map. apply (Forall_forallb_mp (fun f => wfz (snd f)) _ _ Hwf). eapply Forall_impl; [|exact IH].
+    intros f Hf Hwff. split; [apply cdec_lin; exact Hwff|apply Hf; exact Hwff].
+Qed.
+
+Theorem cdec_budget_enough : forall pol neg t bs budget, wfz t = true -> len bs < budget ->
+  fst (cdec pol neg t bs budget) <> CBudget.
+Proof. intros pol neg t bs budget Hwf Hlt. apply cdec_no_budget; [exact Hwf|lia]. Qed.
